@@ -115,7 +115,46 @@ def _closing_node(run, f, closed):
         if isinstance(n, ast.Call) and (dotted(n.func) or [""])[-1] == "put" and len(n.args) >= 3:
             put = n
     if put is None:
-        run.incomplete("IDX/closing-node", c, where(f), "np.put(closed.ravel(), ...) not found")
+        # second idiom: a two-dimensional fancy store   closed[np.arange(n_face), <argmax of the first fill value>] = face_nodes[:, 0]
+        from ..astutil import LocalDefs
+        defs = LocalDefs(f.node)
+        fancy = [st for st in S.stores_into(f.node, closed) if isinstance(st.targets[0].slice, ast.Tuple) and len(st.targets[0].slice.elts) == 2
+                 and not all(isinstance(e, ast.Slice) for e in st.targets[0].slice.elts)]
+        if not fancy:
+            run.incomplete("IDX/closing-node", c, where(f), "neither np.put(closed.ravel(), ...) nor a store closed[rows, columns] = first nodes found")
+            return
+        st = fancy[0]
+        rows, cols = st.targets[0].slice.elts
+        probs, unknown = [], []
+        rn, _ = defs.closure(rows)
+        row_ok = any(isinstance(n, ast.Call) and (dotted(n.func) or [""])[-1] == "arange" and n.args and S.poly(n.args[-1] if len(n.args) < 3 else n.args[1]) == S.P(params[1]) for e in rn for n in ast.walk(e))
+        if not row_ok:
+            unknown.append(f"row index {norm(rows)[:40]} is not np.arange(n_face)")
+        cn, _ = defs.closure(cols)
+        col_ok = False
+        for e in cn:
+            for n in ast.walk(e):
+                if isinstance(n, ast.Call) and (dotted(n.func) or [""])[-1] == "argmax" and n.args:
+                    t = S.fill_test(n.args[0])
+                    axis = next((k.value for k in n.keywords if k.arg == "axis"), n.args[1] if len(n.args) > 1 else None)
+                    if t and t[0] == "eq" and isinstance(t[1], ast.Name) and t[1].id == closed and isinstance(axis, ast.Constant) and axis.value == 1:
+                        col_ok = True
+        if not col_ok:
+            (probs if isinstance(cols, ast.Constant) or (isinstance(cols, ast.UnaryOp)) else unknown).append(f"column index {norm(cols)[:50]} is not the position of the row's first fill value (argmax({closed} == INT_FILL_VALUE, axis=1))")
+        val_nodes, _ = defs.closure(st.value)
+        first_col = any(isinstance(n, ast.Subscript) and isinstance(S.strip_copy(n.value), ast.Name) and S.strip_copy(n.value).id == params[0]
+                        and S.subscript_axes(n) == [("all",), ("idx", 0)] for e in val_nodes for n in ast.walk(e))
+        if not first_col:
+            probs.append("the value written after the last corner is not the face's first node (face_node_connectivity[:, 0])")
+        if probs:
+            run.violation("IDX/closing-node", c, where(f, st), "; ".join(probs))
+        elif unknown:
+            run.incomplete("IDX/closing-node", c, where(f, st), "; ".join(unknown))
+        else:
+            run.holds("IDX/closing-node", c, where(f, st), "first node written at [row, position of the row's first fill value]")
+        rets = [r for r in ast.walk(f.node) if isinstance(r, ast.Return)]
+        if not (rets and all(isinstance(r.value, ast.Name) and r.value.id == closed for r in rets)):
+            run.violation("IDX/closing-node", f"{f.key}:returns-closed", where(f), "close_face_nodes does not return the closed array")
         return
     from ..astutil import LocalDefs
     defs = LocalDefs(f.node)
